@@ -240,22 +240,22 @@ theorem pppoe_writeTags_ok (ts : List PppoeTag) (o : OutCursor) (hi : o.Inv) (hs
 theorem pppoe_headerBytes_length (p : PPPoE) : p.headerBytes.length = 6 := by simp [PPPoE.headerBytes]
 
 /-- the object whose header `write_serialization` stores -/
-def PPPoE.written (cx : Ctx) (p : PPPoE) : PPPoE := { p with payloadLength := PPPoE.lengthFor cx p }
+def PPPoE.written (cx : Ctx) (p : PPPoE) (total : Nat) : PPPoE := { p with payloadLength := PPPoE.lengthFor cx p total }
 
 /-- closed form of `PPPoE::write_serialization` -/
 theorem pppoe_write_eq (cx : Ctx) (p : PPPoE) (h : p.Inv) (region : Bytes) (hr : p.hdr ≤ region.length) :
     p.write cx region =
-      .ok ((PPPoE.written cx p).headerBytes ++ p.tags.flatMap PPPoE.tagBytes ++ region.drop p.hdr) := by
+      .ok ((PPPoE.written cx p region.length).headerBytes ++ p.tags.flatMap PPPoE.tagBytes ++ region.drop p.hdr) := by
   have hsz := h.size
   simp only [PPPoE.hdr, hsz] at hr
   have o0 : (OutCursor.ofRegion region).Inv := by simp [OutCursor.ofRegion, OutCursor.Inv]
-  have hb := pppoe_headerBytes_length (PPPoE.written cx p)
-  rcases owrite_ok (OutCursor.ofRegion region) (PPPoE.written cx p).headerBytes o0 (by simp [OutCursor.ofRegion, hb]; omega) with
+  have hb := pppoe_headerBytes_length (PPPoE.written cx p region.length)
+  rcases owrite_ok (OutCursor.ofRegion region) (PPPoE.written cx p region.length).headerBytes o0 (by simp [OutCursor.ofRegion, hb]; omega) with
     ⟨w1, i1⟩
   have w2 := pppoe_writeTags_ok p.tags _ i1 (by simp [OutCursor.ofRegion, hb]; omega)
-  have hdef : p.write cx region = ((OutCursor.ofRegion region).write (PPPoE.written cx p).headerBytes >>= fun o =>
-      PPPoE.writeTags o (PPPoE.written cx p).tags >>= fun o => pure o.buffer) := rfl
-  have ht : (PPPoE.written cx p).tags = p.tags := rfl
+  have hdef : p.write cx region = ((OutCursor.ofRegion region).write (PPPoE.written cx p region.length).headerBytes >>= fun o =>
+      PPPoE.writeTags o (PPPoE.written cx p region.length).tags >>= fun o => pure o.buffer) := rfl
+  have ht : (PPPoE.written cx p region.length).tags = p.tags := rfl
   rw [hdef, w1, Out.bind_ok, ht, w2, Out.bind_ok]
   simp only [Out.pure_eq, OutCursor.buffer, OutCursor.ofRegion, List.nil_append, List.drop_drop, hb, PPPoE.hdr, hsz,
     List.append_assoc]
@@ -268,7 +268,7 @@ theorem pppoe_writesOnly (cx : Ctx) (p : PPPoE) (h : p.Inv) : WritesOnly (pppoeS
   apply writesOnly_of_header_only _ rfl
   intro region hr
   simp only [pppoeSem] at hr
-  have hlen : ((PPPoE.written cx p).headerBytes ++ p.tags.flatMap PPPoE.tagBytes).length = p.hdr := by
+  have hlen : ((PPPoE.written cx p region.length).headerBytes ++ p.tags.flatMap PPPoE.tagBytes).length = p.hdr := by
     simp only [List.length_append, pppoe_headerBytes_length, pppoe_flat_length, PPPoE.hdr, h.size]
   refine ⟨_, pppoe_write_eq cx p h region hr, ?_, ?_⟩
   · simp only [List.length_append, List.length_drop] at hlen ⊢; omega
